@@ -16,6 +16,8 @@ pub enum MisKind {
     CellPen,
     Mark,
     Scrollback,
+    /// rows `lines()` shows above the view of the alternate screen
+    Above,
     HPen,
     HCharset,
     HTabs,
@@ -68,12 +70,23 @@ fn line_mismatch(what: &str, i: usize, l: &avt::Line, m: &MLine) -> Option<Misma
 /// and (primary screen) the scrollback.  `sb_tail`: how many of the newest scrollback lines to
 /// compare cell by cell (usize::MAX = all).
 pub fn compare_public(vt: &Vt, m: &Model, sb_tail: usize) -> Option<Mismatch> {
-    compare_public_opt(vt, m, sb_tail, false)
+    compare_public_opt(vt, m, sb_tail, false, Above::Exact)
 }
 
 /// `trimmed`: the real terminal may have trimmed its scrollback (finite limit, fed through
 /// feed_str): what it retains must then be the newest part of the model's scrollback
-pub fn compare_public_opt(vt: &Vt, m: &Model, sb_tail: usize, trimmed: bool) -> Option<Mismatch> {
+/// What `Vt::lines()` may hold above the view of the alternate screen.
+#[derive(Clone, Copy, PartialEq, Eq, Debug)]
+pub enum Above {
+    /// exactly the rows scrolled off the top since the last trim (per-character `feed`, which never trims)
+    Exact,
+    /// the newest of them (calls that trim and calls that do not were mixed)
+    Newest,
+    /// nothing: the call that just returned trims
+    Nothing,
+}
+
+pub fn compare_public_opt(vt: &Vt, m: &Model, sb_tail: usize, trimmed: bool, above: Above) -> Option<Mismatch> {
     if vt.size() != (m.cols, m.rows) {
         return mm(MisKind::Geometry, format!("size real {:?} model {:?}", vt.size(), (m.cols, m.rows)));
     }
@@ -118,6 +131,25 @@ pub fn compare_public_opt(vt: &Vt, m: &Model, sb_tail: usize, trimmed: bool) -> 
         let from = sb.len().saturating_sub(sb_tail);
         for i in from..sb.len() {
             if let Some(x) = line_mismatch("scrollback", i, &sb[i], &m.sb[i]) {
+                return Some(x);
+            }
+        }
+    } else {
+        let lines = vt.lines();
+        let ab = &lines[..lines.len() - m.rows];
+        let ok_len = match above {
+            Above::Exact => ab.len() == m.above.len(),
+            Above::Newest => ab.len() <= m.above.len(),
+            Above::Nothing => ab.is_empty(),
+        };
+        if !ok_len {
+            return mm(MisKind::Above, format!("alternate screen: lines() holds {} rows above the view, {} scrolled off the top since the last trim ({:?})", ab.len(), m.above.len(), above));
+        }
+        let off = m.above.len() - ab.len();
+        let from = ab.len().saturating_sub(sb_tail);
+        for i in from..ab.len() {
+            if let Some(mut x) = line_mismatch("above-view", i, &ab[i], &m.above[off + i]) {
+                x.kind = MisKind::Above;
                 return Some(x);
             }
         }
